@@ -8,9 +8,9 @@ INVARIANTS = ["PositionalEqKeyword", "KeywordOrderIrrelevant", "DefaultsPresent"
               "FreeVerbatim", "OneValuePerKey"]
 
 CONSTS = {
-    ("quick", "graph"): dict(MaxEntries=3, Keys="KeysGraph", Values="ValsQ", DialectName='"graph"', FaultEntries="Faults"),
-    ("quick", "coarse"): dict(MaxEntries=2, Keys="KeysGraph", Values="ValsQ", DialectName='"coarse"', FaultEntries="Faults"),
-    ("quick", "atom"): dict(MaxEntries=3, Keys="KeysAtom", Values="ValsQ", DialectName='"atom"', FaultEntries="Faults"),
+    ("quick", "graph"): dict(MaxEntries=3, Keys="KeysGraphQ", Values="ValsQ", DialectName='"graph"', FaultEntries="Faults"),
+    ("quick", "coarse"): dict(MaxEntries=2, Keys="KeysGraphQ", Values="ValsQ", DialectName='"coarse"', FaultEntries="Faults"),
+    ("quick", "atom"): dict(MaxEntries=3, Keys="KeysAtomQ", Values="ValsQ", DialectName='"atom"', FaultEntries="Faults"),
     ("thorough", "graph"): dict(MaxEntries=3, Keys="KeysGraph", Values="ValsT", DialectName='"graph"', FaultEntries="Faults"),
     ("thorough", "coarse"): dict(MaxEntries=3, Keys="KeysGraph", Values="ValsT", DialectName='"coarse"', FaultEntries="Faults"),
     ("thorough", "atom"): dict(MaxEntries=3, Keys="KeysAtom", Values="ValsT", DialectName='"atom"', FaultEntries="Faults"),
@@ -53,9 +53,12 @@ def observe(site, entries, reuse, variant=0):
         copies = [n["attrs"] + ([["charge", n["raw_charge"]]] if n["raw_charge"] != "" else [])
                   for n in fine if n["map"] == [["X", 0]]]
         return text, {"outcome": "ok", "copies": copies, "coarse": []}
-    variant = variant % 4
+    variant = variant % 5
     mult = "|%d" % reuse if reuse > 1 else ""
-    if variant == 3:        # an explicitly written, annotated hydrogen
+    plain_idx = None
+    if variant == 4:        # followed by bracket atoms without annotation
+        text, idx, plain_idx = "{[#X]%s}.{#X=[$]C[C%s](O)C[NH3+][$]}" % (mult, ann), 1, 4
+    elif variant == 3:        # an explicitly written, annotated hydrogen
         text, idx = "{[#X]%s}.{#X=[$]C([H%s])(O)[$]}" % (mult, ann), 1
     elif variant == 0:
         text, idx = "{[#X]%s}.{#X=[$]C[C%s](O)[$]}" % (mult, ann), 1
@@ -68,10 +71,13 @@ def observe(site, entries, reuse, variant=0):
         return text, {"outcome": o["outcome"], "copies": [], "coarse": []}
     fine = o["steps"][0]["fine"]["nodes"]
     copies = [n["attrs"] for n in fine if n["map"] == [["X", idx]]]
-    return text, {"outcome": "ok", "copies": copies, "coarse": []}
+    obs = {"outcome": "ok", "copies": copies, "coarse": []}
+    if plain_idx is not None:
+        obs["plain"] = [n["attrs"] for n in fine if n["map"] == [["X", plain_idx]]]
+    return text, obs
 
 
-C14_CLAUSES = ["C14_Accepted", "C14_Attrs", "C14_OnEveryCopy", "C14_OnCoarseNode", "C14_Defaults"]
+C14_CLAUSES = ["C14_Accepted", "C14_Attrs", "C14_OnEveryCopy", "C14_OnCoarseNode", "C14_Defaults", "C14_OnItsAtomOnly"]
 C20_CLAUSES = ["C20_Raises", "C20_NoGraph"]
 
 
@@ -86,9 +92,9 @@ def collect(check, tier):
             # atoms: every entry sequence at every atom template (plain atom, single-atom fragment, behind two-letter
             # elements and a ring, explicit hydrogen); nodes: directly multiplied / anchor of a multiplied branch
             if tier == "quick":
-                variants = [k % 3, 3] if site == "atom" else [k // 3 + k]
+                variants = [k % 3, 3 + (k // 3) % 2] if site == "atom" else [k // 3 + k]
             else:
-                variants = range(4) if site == "atom" else range(2) if site == "graph" else [0]
+                variants = range(5) if site == "atom" else range(2) if site == "graph" else [0]
             for variant in variants:
                 text, obs = observe(site, it["entries"], reuse, variant)
                 records.append({"site": site, "entries": it["entries"], "reuse": reuse, "obs": obs, "text": text})
